@@ -285,7 +285,7 @@ pub fn supervise(ctx: &mut Ctx, campaign: &str, watchdog: u64, max_restarts: u32
                         };
                         let fail = if ctx.id == "C32" {
                             // one root cause behind every C32 symptom, see props_crash.rs
-                            Fail::new("failed write: process-level failure afterwards", format!("{}\n{}", fail.sig, fail.detail))
+                            Fail::new("failed write: process-level failure afterwards (storage transaction left open)", format!("{}\n{}", fail.sig, fail.detail))
                         } else {
                             fail
                         };
